@@ -28,16 +28,26 @@ def applyAttDb (p att : α) : α := p * (N(1) / db2lin att)
 def lumpedLin (lossDb : α) : α := db2lin (-lossDb)
 
 /-! ### lumped losses on the z axis (`RamanSolver._create_lumped_losses`)
-`numpy.unique(concatenate((z_lumped, z)), return_index=True)` keeps, for every distinct position, the FIRST
-occurrence in `z_lumped ++ z`; the result is sorted by position.  Points are `(position [m], linear loss)`. -/
+`numpy.unique(concatenate((z_lumped, z)), return_inverse=True)` gives the sorted distinct positions; the losses of all
+entries that share a position (several lumped losses at one place, or a lumped loss on a grid point, whose own entry
+is 1) are multiplied (`merged_losses[index] *= loss`).  Points are `(position [m], linear loss)`. -/
 
-/-- insert a point keeping ascending positions; a point whose position is already present is dropped
-(the earlier one wins) -/
+/-- insert a point keeping ascending positions; a point whose position is already present multiplies its loss into
+the point that is there -/
 def insertPoint (pt : α × α) : List (α × α) → List (α × α)
   | [] => [pt]
   | q :: rest =>
     if pt.1 < q.1 then pt :: q :: rest
     else if q.1 < pt.1 then q :: insertPoint pt rest
+    else (q.1, q.2 * pt.2) :: rest
+
+/-- the behaviour before the fix 74081ba1 (`return_index=True`: the first entry of a position wins, later ones are
+dropped); kept only for the witness lemma `lumped_same_position_failed_before_fix` -/
+def insertPointFirstWins (pt : α × α) : List (α × α) → List (α × α)
+  | [] => [pt]
+  | q :: rest =>
+    if pt.1 < q.1 then pt :: q :: rest
+    else if q.1 < pt.1 then q :: insertPointFirstWins pt rest
     else q :: rest
 
 /-- `_create_lumped_losses(z, lumped_losses, z_lumped_losses)`: the merged, position-sorted list of
@@ -151,3 +161,162 @@ def spanLossDb (s : Span α) : Option α :=
 
 end
 end Gnpy.Fiber
+
+/-
+Raman solver, unidirectional part (gnpy/core/science_utils.py
+`RamanSolver.calculate_unidirectional_stimulated_raman_scattering`), on the solver's own z grid.
+Vectors are indexed by frequency, matrices `m[a][t]` by frequency `a` and grid index `t`; the Raman efficiency
+`cr[a][b]` (from `Fiber.cr`, an input of the model) is the gain of `a` per W of `b`.
+The grid is the list of `(z, lumped)` pairs returned by `_create_lumped_losses` (`Gnpy.Fiber.createLumped`).
+Not modelled: `iterative_algorithm` (co- and counter-propagating waves together), spontaneous Raman scattering.
+-/
+namespace Gnpy.Raman
+
+section
+variable {α : Type} [Add α] [Sub α] [Mul α] [Div α] [Neg α] [NatCast α] [LT α] [LE α]
+  [DecidableLT α] [DecidableLE α] [Transc α]
+
+local notation "N(" n ")" => ((n : Nat) : α)
+
+/-- `sum(row * p)` -/
+def dot : List α → List α → α
+  | r :: rs, p :: ps => r * p + dot rs ps
+  | _, _ => N(0)
+
+/-! ### method `numerical`: explicit Euler -/
+
+/-- one step: `power[:, i] = power[:, i-1] * (1 + (-alpha + sum(cr * power[:, i-1], 1)) * dz) * lumped` -/
+def eulerStepGo (pAll : List α) (dz l : α) : List α → List α → List (List α) → List α
+  | pa :: ps, a :: as, row :: rows =>
+    pa * (N(1) + (-a + dot row pAll) * dz) * l :: eulerStepGo pAll dz l ps as rows
+  | _, _, _ => []
+
+def eulerStep (alpha : List α) (cr : List (List α)) (p : List α) (dz l : α) : List α :=
+  eulerStepGo p dz l p alpha cr
+
+/-- the columns `power[:, 0], power[:, 1], …` along the grid `(z_k, lumped_k)`; the step from `z_k` to `z_{k+1}`
+uses `lumped_k` -/
+def euler (alpha : List α) (cr : List (List α)) : List α → List (α × α) → List (List α)
+  | p, g0 :: g1 :: rest =>
+    p :: euler alpha cr (eulerStep alpha cr p (g1.1 - g0.1) g0.2) (g1 :: rest)
+  | p, _ => [p]
+
+/-! ### method `perturbative` -/
+
+def vadd : List α → List α → List α
+  | x :: xs, y :: ys => (x + y) :: vadd xs ys
+  | _, _ => []
+
+def vmul : List α → List α → List α
+  | x :: xs, y :: ys => (x * y) :: vmul xs ys
+  | _, _ => []
+
+def vscale (c : α) (v : List α) : List α := v.map (fun x => c * x)
+
+def zeros (n : Nat) : List α := List.replicate n N(0)
+
+/-- `sum(crpz * m, 1)[a]` for one row `crp[a][·]`: `Σ_b crp[a][b] · m[b][·]` -/
+def rowTimes (T : Nat) : List α → List (List α) → List α
+  | c :: cs, mb :: ms => vadd (vscale c mb) (rowTimes T cs ms)
+  | _, _ => zeros T
+
+/-- `sum(crpz * m, 1)` -/
+def crTimes (T : Nat) (crp : List (List α)) (m : List (List α)) : List (List α) := crp.map (fun row => rowTimes T row m)
+
+/-- cumulative trapezoid `cumsum((y[:-1] + y[1:]) / 2 * dz)` started from `acc`, without the leading entry -/
+def trapGo (acc : α) : List α → List α → List α
+  | y0 :: y1 :: ys, z0 :: z1 :: zs =>
+    let acc' := acc + (y0 + y1) / N(2) * (z1 - z0)
+    acc' :: trapGo acc' (y1 :: ys) (z1 :: zs)
+  | _, _ => []
+
+/-- the `z_integral` row with the value 0 put in front (`gamma_k[:, 0] = 0`, `crpz[:, :, 1:] * z_integral`) -/
+def trapCum (ys zs : List α) : List α := N(0) :: trapGo N(0) ys zs
+
+/-- `exp(exponent)` on one interval of the grid (relative positions `zs`, launch powers `p0` already multiplied by the
+lumped loss at the interval start), for `order ∈ {0,…,4}` (the code rejects more than 4) -/
+def expoInterval (order : Nat) (alpha : List α) (cr : List (List α)) (p0 : List α) (zs : List α) : List (List α) :=
+  let T := zs.length
+  let alphaz := alpha.map (fun a => zs.map (fun z => a * z))
+  let expz := alphaz.map (fun r => r.map (fun x => Transc.exp (-x)))
+  let effLen := (alpha.zip expz).map (fun ae => ae.2.map (fun e => N(1) / ae.1 * (N(1) - e)))
+  let crp := cr.map (fun row => vmul row p0)
+  let e0 := alphaz.map (fun r => r.map (fun x => -x))
+  if order = 0 then e0 else
+  let g1 := crTimes T crp effLen
+  let e1 := (e0.zip g1).map (fun x => vadd x.1 x.2)
+  if order = 1 then e1 else
+  let int2 := (expz.zip g1).map (fun x => trapCum (vmul x.1 x.2) zs)
+  let g2 := crTimes T crp int2
+  let e2 := (e1.zip g2).map (fun x => vadd x.1 x.2)
+  if order = 2 then e2 else
+  let half : α := N(1) / N(2)
+  let int3 := (expz.zip (g1.zip g2)).map (fun x =>
+    trapCum (vmul x.1 (vadd x.2.2 (vscale half (vmul x.2.1 x.2.1)))) zs)
+  let g3 := crTimes T crp int3
+  let e3 := (e2.zip g3).map (fun x => vadd x.1 x.2)
+  if order = 3 then e3 else
+  let sixth : α := N(1) / N(6)
+  let int4 := (expz.zip (g1.zip (g2.zip g3))).map (fun x =>
+    trapCum (vmul x.1 (vadd (vadd x.2.2.2 (vmul x.2.1 x.2.2.1)) (vscale sixth (vmul x.2.1 (vmul x.2.1 x.2.1))))) zs)
+  let g4 := crTimes T crp int4
+  (e3.zip g4).map (fun x => vadd x.1 x.2)
+
+/-- `power_interval = outer(p0, ones) * exp(exponent)` -/
+def powerInterval (order : Nat) (alpha : List α) (cr : List (List α)) (p0 : List α) (zs : List α) : List (List α) :=
+  ((expoInterval order alpha cr p0 zs).zip p0).map (fun x => x.1.map (fun e => x.2 * Transc.exp e))
+
+/-- split the grid at the first point that carries a lumped loss (≠ 1) after the start: returns the interval
+(start … that point inclusive) and the remaining grid beginning at that point -/
+def takeInterval : List (α × α) → List (α × α) × List (α × α)
+  | [] => ([], [])
+  | g :: rest =>
+    let rec go : List (α × α) → List (α × α) × List (α × α)
+      | [] => ([], [])
+      | h :: t =>
+        if h.2 < N(1) ∨ N(1) < h.2 then ([h], h :: t)
+        else
+          let r := go t
+          (h :: r.1, r.2)
+    let r := go rest
+    (g :: r.1, r.2)
+
+def lastD (d : α) : List α → α
+  | [] => d
+  | [x] => x
+  | _ :: xs => lastD d xs
+
+/-- append the columns `1:` of `m` to the rows of `acc` -/
+def appendTail (acc m : List (List α)) : List (List α) := (acc.zip m).map (fun x => x.1 ++ x.2.drop 1)
+
+/-- the loop over the intervals between lumped losses; `ll` is the lumped loss applied at the start of the
+current interval (`llumped_losses`), `fuel` bounds the number of intervals -/
+def perturbGo (order : Nat) (alpha : List α) (cr : List (List α)) :
+    Nat → List α → α → List (α × α) → List (List α) → List (List α)
+  | 0, _, _, _, acc => acc
+  | fuel + 1, pin, ll, grid, acc =>
+    match grid with
+    | [] => acc
+    | [_] => acc
+    | g0 :: _ =>
+      let iv := takeInterval grid
+      let zs := iv.1.map (fun g => g.1 - g0.1)
+      let p0 := pin.map (fun x => x * ll)
+      let pw := powerInterval order alpha cr p0 zs
+      let acc' := appendTail acc pw
+      let pin' := (pw.zip pin).map (fun x => lastD x.2 x.1)
+      let ll' := match iv.2 with
+        | [] => N(1)
+        | h :: _ => h.2
+      perturbGo order alpha cr fuel pin' ll' iv.2 acc'
+
+/-- `calculate_unidirectional_stimulated_raman_scattering`, method `perturbative`: rows = frequencies,
+columns = grid points -/
+def perturbative (order : Nat) (alpha : List α) (cr : List (List α)) (pin : List α) (grid : List (α × α)) : List (List α) :=
+  perturbGo order alpha cr (grid.length + 1) pin N(1) grid (pin.map (fun x => [x]))
+
+/-- transpose of the Euler columns: rows = frequencies -/
+def column (m : List (List α)) (k : Nat) : List α := m.filterMap (fun r => r[k]?)
+
+end
+end Gnpy.Raman
